@@ -56,6 +56,10 @@ class TLCResult:
             self.violated.append("temporal")
         self.post_failed = bool(re.search(r"POSTCONDITION|Post-?condition .* (violated|false)", out)) and "Error" in out
         self.no_error = "Model checking completed. No error has been found." in out
+        # per-action counts printed with -coverage: <Name line .. of module M>: distinct:generated
+        self.actions = {}
+        for m2 in re.finditer(r"^<(\w+) line \d+, col \d+ to line \d+, col \d+ of module (\w+)>: (\d+):(\d+)", out, re.M):
+            self.actions[m2.group(1)] = max(self.actions.get(m2.group(1), 0), int(m2.group(4)))
         self.other_errors = [
             ln for ln in out.splitlines()
             if ln.startswith("Error:") and "is violated" not in ln and "Temporal properties" not in ln
@@ -213,9 +217,18 @@ class Check:
         self.cov["checker_cmd"] = "tlc -workers N -config <cfg> %s.tla" % module
         return res
 
-    def model_check(self, module, cfg, tag=None, invariants=None, **kw):
-        """Positive model-level run: must complete with no error."""
+    def model_check(self, module, cfg, tag=None, invariants=None, must_cover=None, **kw):
+        """Positive model-level run: must complete with no error. must_cover: action names that must have been taken
+        (the run is then made with -coverage 1; an action never taken means the invariants were never exercised there)."""
+        if must_cover:
+            kw["extra"] = (kw.get("extra") or []) + ["-coverage", "1"]
         r = self.tlc(module, cfg, tag=tag, **kw)
+        if must_cover:
+            dead = [a for a in must_cover if r.actions.get(a, 0) == 0]
+            if dead:
+                raise Infra("model-level run %s never takes action(s) %s - vacuous" % (tag or module, dead))
+            with self.lock:
+                self.cov.setdefault("action_coverage", {})[tag or module] = {a: r.actions.get(a, 0) for a in must_cover}
         if r.violated:
             # the MODEL violates its own property: the specification is wrong, not the code
             raise Infra("model-level run %s violates %s (specification error):\n%s" % (tag or module, r.violated, r.out[-3000:]))
@@ -263,6 +276,27 @@ class Check:
             self.cov["transitions"] += r.generated
             self.cov["model_runs"].append({"run": "trace:" + tag, "events": res["total"], "wall_s": round(r.wall, 1)})
         return res["bad"], res
+
+    def apalache(self, module, args, expect_error=False, timeout=600, tag=None):
+        """Bounded/inductive check with Apalache (symbolic). Returns True when the outcome is as expected."""
+        tag = tag or module
+        outdir = tempfile.mkdtemp(prefix="apa-", dir=self.scratch)
+        cmd = ["timeout", str(timeout), "apalache-mc", "check", "--out-dir=" + outdir] + args + [module + ".tla"]
+        p = subprocess.run(cmd, cwd=self.specdir, capture_output=True, text=True)
+        out = p.stdout + p.stderr
+        shutil.rmtree(outdir, ignore_errors=True)
+        if p.returncode == 124:
+            raise Infra("Apalache timed out on %s" % tag)
+        ok = "The outcome is: NoError" in out
+        err = "The outcome is: Error" in out or "violation" in out.lower()
+        if expect_error:
+            if not err:
+                raise Infra("Apalache twin %s was not rejected:\n%s" % (tag, out[-1500:]))
+        elif not ok:
+            raise Infra("Apalache run %s failed:\n%s" % (tag, out[-2500:]))
+        with self.lock:
+            self.cov["model_runs"].append({"run": "apalache:" + tag, "outcome": "error (expected)" if expect_error else "NoError"})
+        return True
 
     def parallel(self, thunks, max_workers=4):
         """Run independent steps (TLC runs, driver runs) concurrently; the first exception is re-raised."""
